@@ -34,6 +34,9 @@ func New[T any](opts ...Option) Tree[T] {
 		size:      0,
 		opts:      o,
 		prevTxn:   &atomic.Pointer[Txn[T]]{},
+		// Leaf nodes report a transaction ID of 0, so the transaction IDs
+		// must start from 1 for leaves to never be mutated in-place.
+		nextTxnID: 1,
 	}
 	return t
 }
